@@ -1250,6 +1250,11 @@ func (x *Exec) evalCall(env *specEnv, n *ast.CallExpr, hint types.Type, cl *Clau
 		need(1)
 		a := arg(0, nil)
 		return Term{S: "(any_ref_v " + a.S + ")", Sort: sRef}
+	case "bvOf":
+		// bvOf(x): the 64-bit scalar held in the interface value x (integers are widened when boxed)
+		need(1)
+		a := arg(0, nil)
+		return Term{S: "(any_bv_v " + a.S + ")", Sort: sBV(64), Typ: types.Typ[types.Uint64]}
 	case "asAny":
 		// asAny(kind, v): the interface value holding v with dynamic type kind (a package type name)
 		need(2)
